@@ -27,9 +27,11 @@ def tridiag(report):
         raise X.ExtractionBreak("TridiagEigen members changed: %r" % mem)
     f = X.locate(TH, "compute", cls="TridiagEigen")
     types = r'''
-typedef struct { Index m_n; Scalar *m_main_diag; Scalar *m_sub_diag; Mat m_evecs; _Bool m_computed; _Bool g_zero_exit; } TE;
+typedef struct { Index m_n; Scalar *m_main_diag; Scalar *m_sub_diag; Mat m_evecs; _Bool m_computed; _Bool g_zero_exit; _Bool g_ident; } TE;
 /* tridiagonal_qr_step(diag, subdiag, start, end, Q, n): frame contract (its body is a bounded kernel):
  * writes only diag[start..end] and subdiag[start..end-1]; requires 0 <= start < end <= n-1 */
+static Scalar MAXABS_DIAG(Index n, Index k)
+{ __CPROVER_assert(n - k >= 1, "Eigen: maxCoeff() needs a non-empty vector (diagonal / sub-diagonal of the input)"); return NONNEG_SCALAR(); }
 static void tridiagonal_qr_step(Scalar *diag, Scalar *subdiag, Index start, Index end, Scalar *matrixQ, Index n)
 {
   __CPROVER_assert(0 <= start && start < end && end <= n - 1, "tridiagonal_qr_step precondition: 0 <= start < end <= n-1");
@@ -44,18 +46,21 @@ static void tridiagonal_qr_step(Scalar *diag, Scalar *subdiag, Index start, Inde
                       ("fresh object (as constructed by the solvers for every decomposition)", "!T->m_computed")],
                  post=[("normal exit marks the object computed; n eigenvalues and an n x n eigenvector matrix (the shape the solvers rely on)",
                         "T->m_computed && T->m_n == rows && VEC_SIZE(T->m_main_diag) == rows && T->m_evecs.rows == rows && T->m_evecs.cols == rows"),
+                       ("on every normal exit (also the zero-matrix early exit) the eigenvector accumulator was initialised to the identity after it was (re)allocated", "T->g_ident"),
                        ("normal exit only with T driven to diagonal form: every sub-diagonal entry is exactly zero (or the zero-matrix early exit was taken)",
                         "T->g_zero_exit || !(0 <= g_q && g_q < rows - 1) || T->m_sub_diag[g_q] == (Scalar)0")],
                  exc_post=[("non-square -> invalid_argument; iteration limit -> runtime_error", "(verif_exc == EXC_invalid_argument && rows != cols) || verif_exc == EXC_runtime_error"),
                            ("no result is marked valid when the decomposition failed", "!T->m_computed")],
-                 frame=["T->m_n", "T->m_main_diag", "T->m_sub_diag", "T->m_evecs", "T->m_computed", "T->g_zero_exit"], may_throw=[1, 2], real=TH + ":compute")
+                 frame=["T->m_n", "T->m_main_diag", "T->m_sub_diag", "T->m_evecs", "T->m_computed", "T->g_zero_exit", "T->g_ident"], may_throw=[1, 2], real=TH + ":compute")
     pre = [("rows", r"m_n = mat\.rows\(\);", "m_n = rows; T->g_zero_exit = 0;", {"max": 1}),
            ("cols", r"mat\.cols\(\)", "cols", {"max": 1}),
            ("resize-d", r"m_main_diag\.resize\(([^;]+)\);", r"m_main_diag = VEC_NEW(\1);", {"max": 1}),
            ("resize-s", r"m_sub_diag\.resize\(([^;]+)\);", r"m_sub_diag = VEC_NEW(\1);", {"max": 1}),
-           ("resize-e", r"m_evecs\.resize\(([^;]+)\);\s*m_evecs\.setIdentity\(\);", r"m_evecs = MAT_NEW(\1);", {"max": 1}),
-           ("scale", r"const Scalar scale = \(std::max\)\(mat\.diagonal\(\)\.cwiseAbs\(\)\.maxCoeff\(\),\s*mat\.diagonal\(-1\)\.cwiseAbs\(\)\.maxCoeff\(\)\);",
-            "__CPROVER_assert(rows >= 1, @Q@Eigen: maxCoeff of a non-empty diagonal@Q@); const Scalar scale = NONNEG_SCALAR();", {"max": 1}),
+           ("resize-e", r"m_evecs\.resize\(([^;]+)\);", r"m_evecs = MAT_NEW(\1); T->g_ident = 0;", {"max": 1}),
+           ("ident", r"m_evecs\.setIdentity\(\);", "{ T->g_ident = 1; MAT_TOUCH(T->m_evecs); }", {"min": 1, "max": 2}),
+           # max |.| over the diagonal / the sub-diagonal: Eigen's maxCoeff() requires a NON-EMPTY vector (the sub-diagonal of a 1x1 matrix is empty)
+           ("maxdiag", r"mat\.diagonal\(\)\.cwiseAbs\(\)\.maxCoeff\(\)", "MAXABS_DIAG(rows, 0)", {"max": 1}),
+           ("maxsubd", r"mat\.diagonal\(-1\)\.cwiseAbs\(\)\.maxCoeff\(\)", "MAXABS_DIAG(rows, 1)", {"max": 1}),
            ("zero", r"m_main_diag\.setZero\(\);", "HAVOC_VEC(m_main_diag); T->g_zero_exit = 1;", {"max": 1}),
            ("copy-d", r"m_main_diag\.noalias\(\) = mat\.diagonal\(\) / scale;", "HAVOC_VEC(m_main_diag);", {"max": 1}),
            ("copy-s", r"m_sub_diag\.noalias\(\) = mat\.diagonal\(-1\) / scale;", "HAVOC_VEC(m_sub_diag);", {"max": 1}),
@@ -171,10 +176,10 @@ static Scalar FMULS(Scalar a, Scalar s)
                  post=[("every eigenvalue is either real with an exactly zero imaginary part, or one of two ADJACENT EXACT conjugates with the non-negative imaginary part first",
                         "PAIR_AT(E, g_q)"),
                        ("exactly n eigenvalues are stored", "__CPROVER_OBJECT_SIZE(E->m_eivalues) == E->m_n * sizeof(Complex)")],
-                 frame=["E->m_eivalues"], frame_objs=["E->kind"], real=EH + ":compute (eigenvalue extraction + scaling)")
+                 frame=["E->m_eivalues", "E->m_computed"], frame_objs=["E->kind"], real=EH + ":compute (eigenvalue extraction + scaling)")
     # cut the eigenvalue loop and the scaling statement out of compute()
     body = f.body
-    a = body.index("m_eivalues.resize(m_n);")
+    a = body.index("const Scalar scale")
     b = body.index("doComputeEigenvectors();")
     c = body.index("m_eivalues *= scale;")
     if not (a < b < c):
@@ -182,7 +187,13 @@ static Scalar FMULS(Scalar a, Scalar s)
     import copy
     g = copy.copy(f)
     g.body = "\n" * body[:a].count("\n") + body[a:b] + "\n" * body[b:c].count("\n") + body[c:c + len("m_eivalues *= scale;")] + "\n"
-    pre = [("resize", r"m_eivalues\.resize\(m_n\);", "E->m_eivalues = malloc(E->m_n * sizeof(Complex)); __CPROVER_assume(E->m_eivalues != NULL); const Scalar scale = NONNEG_SCALAR(); __CPROVER_assume(scale <= SCALAR_MAX); /* mat.cwiseAbs().maxCoeff() of a finite matrix */", {"max": 1}),
+    pre = [("scale", r"const Scalar scale = mat\.cwiseAbs\(\)\.maxCoeff\(\);", "const Scalar scale = NONNEG_SCALAR(); __CPROVER_assume(scale <= SCALAR_MAX); /* max |H_ij| of a finite matrix: >= 0, and 0 exactly for the zero matrix */", {"max": 1}),
+           ("divide", r"m_schur\.compute\(mat / scale\);", "__CPROVER_assert(scale > (Scalar)0, @Q@hesseigen: the matrix is divided by max|H_ij| only when that is positive (the zero matrix must not produce NaN)@Q@);", {"max": 1}),
+           ("swaps", r"m_schur\.swap_[TU]\(m_(?:matT|eivec)\);", "", {"min": 2, "max": 2}),
+           # zero-matrix early exit (if present): shapes only; all eigenvalues are the real number zero
+           ("zero-mats", r"m_(?:matT|eivec)\.(?:resize\(m_n, m_n\)|setZero\(\)|setIdentity\(\));", "", {"min": 0, "max": 4}),
+           ("zero-ev", r"m_eivalues\.setZero\(\);", "{ __CPROVER_havoc_object(E->m_eivalues); if (0 <= g_q && g_q < E->m_n) { E->m_eivalues[g_q] = CREAL((Scalar)0); E->kind[g_q] = 0; } if (0 <= g_q + 1 && g_q + 1 < E->m_n) E->kind[g_q + 1] = 0; if (1 <= g_q && g_q - 1 < E->m_n) E->kind[g_q - 1] = 0; }", {"min": 0, "max": 1}),
+           ("resize", r"m_eivalues\.resize\(m_n\);", "E->m_eivalues = malloc(E->m_n * sizeof(Complex)); __CPROVER_assume(E->m_eivalues != NULL);", {"min": 1, "max": 2}),
            ("T", r"m_matT\.coeff\(", "TCOEFF(E, ", {"min": 8}),
            ("real-ev", r"m_eivalues\.coeffRef\(i\) = TCOEFF\(E, i, i\);", "E->m_eivalues[i] = CREAL(TCOEFF(E, i, i)); E->kind[i] = 0;", {"max": 1}),
            ("pair-1", r"m_eivalues\.coeffRef\(i\) = Complex\(([^;]+), z\);", r"E->m_eivalues[i] = CMAKE(\1, z); E->kind[i] = 1;", {"max": 1}),
@@ -197,7 +208,7 @@ static Scalar FMULS(Scalar a, Scalar s)
     loops = {0: "__CPROVER_assigns(i, __CPROVER_object_whole(E->m_eivalues), __CPROVER_object_whole(E->kind)) "
                 "__CPROVER_loop_invariant(0 <= i && i <= E->m_n && (!(0 <= g_q && g_q < i) || PAIR_AT_PRE(E, g_q)) && (!(0 <= g_q && g_q < i && g_q + 1 == i) || E->kind[g_q] != 1)) __CPROVER_decreases(E->m_n - i)",
              }
-    t, R = cgen.emit(g, "he_values", ret_c="void", self_type="HE", self_name="E", members=["m_n"], param_types={"mat": "Index"},
+    t, R = cgen.emit(g, "he_values", ret_c="void", self_type="HE", self_name="E", members=["m_n", "m_computed"], param_types={"mat": "Index"},
                      pre_rules=pre, loop_contracts=loops, contract=spec.frame_contract())
     t = t.replace("HE *E, Index mat", "HE *E")
     report["UpperHessenbergEigen::compute(eigenvalue part)"] = R.fired
